@@ -130,6 +130,7 @@ def run(ctx):
         "most cases feed the parser model the items the real lexer yields (fast); a sample runs lexer model + parser model composed on the source string",
         "release build of the harness (debug_assert! off); the model's debug flavour is covered by the theorem only",
         "real stack use per activation is not modelled: exhibited only by the deep-nest cases on a 1 MiB stack (measured: 0.7-0.9 KiB per nesting level in the release build; 256 KiB overflows from depth ~250)",
+        "a case that raises the recursion limit above the default runs on a stack in proportion (2 KiB per permitted nesting level, 1 MiB for the default 500): the oracle is the linear bound stack <= 2 KiB x (min(limit, nesting) + 1); a caller who raises the limit beyond what the thread's stack carries overflows it, which is what the limit is documented to be for (comment at DEFAULT_RECURSION_LIMIT) and is not counted against the property",
     ]
     return ctx.finish(props)
 
